@@ -128,6 +128,34 @@ def run(res, tier, seed):
                                       f"({b(active)}, {dump(m, it)}, {lst(f'({it.s(c)}, ({z(lo)}, {z(hi)}))' for c, (lo, hi) in cols)}, {lst(lst(z(v) for v in r) for r in rows)})", (ast2, active)))
             except Exception as e:
                 res.count("lookalike_build_error:" + type(e).__name__)
+    # same-id twins that differ in one field (sign, value, a leaf's bounds) over leaves with symmetric bounds: validation has to
+    # reject them (one id, two definitions); whenever it accepts one, it is a validated model and the property speaks about it
+    for _ in range(80 if tier == "quick" else 800):
+        names = rng.sample(list("abcdxyz"), rng.randint(1, 3))
+        sym = lambda: rng.choice([(-1, 1), (-2, 2), (-3, 3), (0, 1), (0, 0), (-1, 0)])
+        kids = [{"k": "var", "id": n_, "b": list(sym())} for n_ in names]
+        v = rng.randint(-2, 2)
+        b1 = {"k": "AtLeast", "v": v, "s": rng.choice([1, -1]), "ch": [dict(c) for c in kids], "id": "B"}
+        b2 = json.loads(json.dumps(b1))
+        how = rng.choice(["sign", "sign", "value", "leaf-bounds"])
+        if how == "sign":
+            b2["s"] = -b1["s"]
+        elif how == "value":
+            b2["v"] = {-1: -2, -2: -1}.get(v, v + 1)
+        else:
+            c0 = b2["ch"][0]; lo, hi = c0["b"]; c0["b"] = [lo - 1, hi + 1]
+        ast = {"k": rng.choice(["All", "Any"]), "id": rng.choice(["T", None]),
+               "ch": [{"k": "Any", "ch": [b1, {"k": "str", "id": "p"}], "id": "P"}, {"k": "Any", "ch": [b2, {"k": "str", "id": "q"}], "id": "Q"}]}
+        try:
+            m = build(ast)
+            if m.errors():
+                res.count("one_field_twin_rejected_by_validation"); continue
+        except Exception as e:
+            res.count("one_field_twin_error:" + type(e).__name__); continue
+        res.count("one_field_twin_accepted_by_validation")
+        bad = oracle_model(res, ast, m, rng, 0, 4096)
+        if bad:
+            res.violation("oracle", f"{bad['problem']} on {m!r} at {bad['env']} (accepted by errors(); the id B has two definitions differing in {how})", bad)
     n, failing, errs = run_case_shards("C01", "encode", "", "bool * prop * list (ident * (Z * Z)) * list (list Z)", "check_encode", cases)
     res.corr_cases += n; res.evaluations += n
     for e in errs:
